@@ -102,6 +102,47 @@ def forgeries(blob, rec):
     return out
 
 
+def history_forgeries(ctx):
+    """keyless forgeries that bet on what a SHARED cache holds after a history of calls: a seed key obtained from the DC, then a
+    protect answered from the cache; the forger lowers L1 by one and derives the KEK from an EMPTY L1 seed (everything else is in the blob)"""
+    import dataclasses, hashlib
+    from cryptography.hazmat.primitives.ciphers.aead import AESGCM
+    from cryptography.hazmat.primitives import keywrap
+    from dpapi_ng._blob import DPAPINGBlob
+    for rec in [r for r in clientsim.standard_roots(real=True) if r.secret_algorithm == "ECDH_P256"]:
+        for now in ((361, 17, 13), (361, 17, 31), (361, 1, 0)):
+            dc = refdc.KeyServer(now=now)
+            dc.add_root(rec)
+            s = clientsim.Sim(dc, real_crypto=True)
+            s.now_ns = clientsim.time_ns_for(*now)
+            with s.world():
+                b1 = s.protect(b"first", "S-1-5-21-1-2-3-1103", rk=None)            # goes to the DC, seed key stored
+                b2 = s.protect(b"second", "S-1-5-21-1-2-3-1103", rk=rec.id)        # answered from the cache
+                if not (b1.startswith("done ") and b2.startswith("done ")):
+                    ctx.violation("protect on a shared cache fails", {"now": now}, (b1[:30], b2[:30]), "blobs")
+                    continue
+                blob = DPAPINGBlob.unpack(bytes.fromhex(b2[5:]))
+                kid = blob.key_identifier
+                hn = rec.hash_name.lower()
+                for (n1, n2) in ((kid.l1 - 1, 31), (kid.l1 - 1, 0), (kid.l1, kid.l2), (kid.l1, 31)):
+                    if n1 < 0:
+                        continue
+                    # keys "derivable" from an empty L1 seed
+                    k = refimpl.kbkdf_hmac(hn, b"", refimpl.LABEL, refimpl.kctx(kid.root_key_identifier, kid.l0, n1, 31), 64)
+                    for j in range(30, n2 - 1, -1):
+                        k = refimpl.kbkdf_hmac(hn, k, refimpl.LABEL, refimpl.kctx(kid.root_key_identifier, kid.l0, n1, j), 64)
+                    kek = refimpl.kbkdf_hmac(hn, k, refimpl.LABEL, kid.key_info, 32)
+                    cek = hashlib.sha256(b"forger").digest()
+                    evil = b"forged after a cache history"
+                    forged = dataclasses.replace(blob, key_identifier=dataclasses.replace(kid, l1=n1, l2=n2), enc_cek=keywrap.aes_key_wrap(kek, cek),
+                                                 enc_content=AESGCM(cek).encrypt(blob.enc_content_parameters[4:16], evil, None)).pack()
+                    out = s.unprotect(forged, no_reply=True)
+                    ctx.count("real:forgery:after-history")
+                    if out is not None and out.startswith("done ") and out != "done " + hx(b"second"):
+                        ctx.violation("a blob forged without key material decrypts on a cache with a history", {"now": list(now), "forged_position": [n1, n2], "hash": rec.hash_name,
+                                                                                                               "history": "protect via DC; protect from cache; unprotect forged"}, out[:80], "error")
+
+
 def work(job):
     """one (config, layout) in a worker process → (cases, violations, counts)"""
     import random, check
@@ -163,6 +204,7 @@ def run(ctx):
             allcases.extend(cases)
     ctx.compare_batch(allcases, nontrivial=lambda line, impl: True)
     ctx.count("configurations", len(jobs))
+    history_forgeries(ctx)
 
 
 def search(ctx, broken, disagreements):
@@ -171,6 +213,12 @@ def search(ctx, broken, disagreements):
 
 def replay(ctx, payload):
     v = payload["violation"]["input"]
+    if "history" in v:
+        c2 = type(ctx)(ctx.prop, "quick", ctx.seed)
+        history_forgeries(c2)
+        for x in c2.violations:
+            print(" ", x["what"], x["input"], x["observed"])
+        return not c2.violations
     h, sa, mode, layout = v["config"]
     real = v.get("real_crypto", False)
     rec = [r for r in clientsim.standard_roots(real=real) if r.hash_name == h and r.secret_algorithm == sa][0]
